@@ -571,6 +571,17 @@ fn fit_multi<C: Lab>(obs: &mut Obs, tag: &'static str, x: &[Vec<f64>], labels: &
             // the returned point, the failure is attributed to that defect and gets its own signature.
             let f_def = obj.value_global_max_clamped(&theta);
             lse_defect = (f_def - j.f).abs() > 1e-9 * j.f.abs().max(1.0);
+            // ... or at the true minimiser (harness' Newton polish started from the returned point): then linfa's
+            // loss has no stationary point where the true loss has its minimum
+            let mut deficit_opt = f64::NAN;
+            if let Some(pl) = model::polish(&obj, &theta, 200) {
+                let fd = obj.value_global_max_clamped(&pl.theta);
+                deficit_opt = obj.max_row_deficit(&pl.theta);
+                if (fd - pl.f).abs() > 1e-9 * pl.f.abs().max(1.0) {
+                    lse_defect = true;
+                }
+            }
+            let deficit_ret = obj.max_row_deficit(&theta);
             obs.fail(
                 if lse_defect { "multi:not-stationary:log-sum-exp-global-max" } else { "multi:not-stationary" },
                 format!(
@@ -584,7 +595,10 @@ fn fit_multi<C: Lab>(obs: &mut Obs, tag: &'static str, x: &[Vec<f64>], labels: &
                     cfg.intercept,
                     n,
                     k,
-                    if lse_defect { format!("; loss with global-max shift and 1e-15 clamp = {:.6} (true loss {:.6})", f_def, j.f) } else { String::new() }
+                    format!(
+                        "; largest score deficit of a row below the global maximum: {:.1} at the returned point, {:.1} at the minimiser (clamp acts beyond 34.5); loss with global-max shift and clamp = {:.6}",
+                        deficit_ret, deficit_opt, f_def
+                    )
                 ),
             )
         }
